@@ -32,10 +32,13 @@ type c19Block struct {
 	Rows   [][]string `json:"rows"`
 }
 
+// privateTmp is this process's own scratch directory (TMPDIR points at it, so the sorter's spill
+// files land there and can be counted). It is created below VERIF_TMP_ROOT, which ./check removes
+// when the run ends.
 func privateTmp() string {
 	d := os.Getenv("VERIF_TMP")
 	if d == "" {
-		d, _ = os.MkdirTemp("", "verif-c19-")
+		d, _ = os.MkdirTemp(os.Getenv("VERIF_TMP_ROOT"), "verif-w-")
 		os.Setenv("VERIF_TMP", d)
 		os.Setenv("TMPDIR", d)
 	}
@@ -255,7 +258,29 @@ func c19Emit(ctx *Ctx, in *c19Input, tags ...string) {
 	ctx.Emit("sort", in, res, nt, tags...)
 }
 
+// c19IngestError: an ingest that fails after runs have been spilled (a record with the wrong number
+// of fields at the end of the file) must still remove its spill files.
+func c19IngestError(ctx *Ctx) {
+	r := ctx.R
+	n := 200 + r.Intn(400)
+	t := GenTable(r, 2, n, []int{0}, 0)
+	csv := append(t.CSV(0), []byte("only-one-field\n")...)
+	runSize := uint64(1024 + r.Intn(4096))
+	tmp := privateTmp()
+	before := countFiles(tmp)
+	res := Guard(func() Res {
+		db := NewMemStore()
+		_, err := IngestCSV(db, csv, t.PK, IngestCfg{RunSize: runSize})
+		return Ok(map[string]interface{}{"errored": err != nil, "leftover": countFiles(tmp) - before})
+	})
+	ctx.Emit("ingest-error", map[string]interface{}{"rows": n, "runSize": runSize}, res, true, "ingest-error")
+}
+
 func runC19(ctx *Ctx) {
+	if ctx.Idx%12 == 7 {
+		c19IngestError(ctx)
+		return
+	}
 	c19Emit(ctx, genC19(ctx.R, ctx.Thorough()))
 }
 
